@@ -299,3 +299,33 @@ Proof.
     apply dot_unitv. rewrite mvec_len, Hm. assumption. }
   rewrite E2 in Hid. lra.
 Qed.
+
+(* ---------------- Gradient / Divergence on a 1-d discretisation ---------------- *)
+Lemma grad_1d n m p dx (x : list R) :
+  eval_leaf (LGrad (repeat 0 0) (repeat 0 0) [n] m p [dx]) x = pderiv [n] 0 m p 0 dx x.
+Proof. cbn [eval_leaf]. unfold gradient; cbn [gradient_from concat]. apply app_nil_r. Qed.
+Lemma div_1d n m p dx (y : list R) : length y = n ->
+  eval_leaf (LDiv (repeat 0 0) (repeat 0 0) [n] m p [dx]) y = pderiv [n] 0 m p 0 dx y.
+Proof.
+  intros Hy. cbn [eval_leaf map split_at prodn fold_right]. rewrite Nat.mul_1_r.
+  unfold divergence; cbn [divergence_from]. rewrite firstn_all2 by lia. reflexivity.
+Qed.
+
+Lemma leaf_ok_grad_1d (c dx : R) (n : nat) (m : meth) (p : pmode) :
+  dx <> 0 -> (2 <= n)%nat ->
+  bnd_in_range n (boundary_tab p m) = true ->
+  bnd_in_range n (boundary_tab (adj_padding p) (adj_method m)) = true ->
+  leaf_ok (LGrad (repeat c n) (repeat c n) [n] m p [dx]) /\
+  leaf_ok (LDiv (repeat c n) (repeat c n) [n] m p [dx]).
+Proof.
+  intros Hdx Hn Hb1 Hb2.
+  destruct (leaf_ok_pderiv_1d c dx n m p Hdx Hn Hb1 Hb2) as (Hp & _).
+  cbn [leaf_dom leaf_ran leaf_adjoint] in Hp.
+  split; (split; [|split; reflexivity]); cbn [leaf_dom leaf_ran leaf_adjoint].
+  - eapply (adj_pair_ext); [| | exact Hp].
+    + intros x Hx. symmetry. apply (grad_1d n m p dx x).
+    + intros y Hy. rewrite repeat_length in Hy. cbn [eval]. f_equal. symmetry. apply (div_1d n _ _ dx y Hy).
+  - eapply (adj_pair_ext); [| | exact Hp].
+    + intros x Hx. rewrite repeat_length in Hx. symmetry. apply (div_1d n m p dx x Hx).
+    + intros y Hy. cbn [eval]. f_equal. symmetry. apply (grad_1d n _ _ dx y).
+Qed.
